@@ -1,4 +1,5 @@
 import FuModel.Proofs.WalkRef
+import FuModel.Proofs.PruneEntered
 
 /-!
 # C03 — visit order: pre/post-order (-depth); -prune cuts exactly one subtree
@@ -70,3 +71,37 @@ example :
     (refRoot ⟨true, 0, 9, .never⟩ ev t ⟨[], 0, 0⟩).2.st = [[[99], [98]], [[98]], [[100]], []] := by decide
 
 end FuModel.Find.Walk
+
+namespace FuModel.Find.Run
+open FuModel.Find.Walk FuModel.Find.Expr
+
+/-- **`-prune` and `-xdev`.**  Whatever the expression, `process_dir` is asked to skip a listing only
+    for an entry that is a directory by its own type and was not cut off by `-xdev` (a directory on
+    another device than its starting point is yielded by the walk without being entered: there is
+    nothing to skip, and skipping would drop its siblings). -/
+theorem C03_prune_only_entered (m : M Prim) (start : Bytes) (v : Visit Attr) (g : GS) :
+    (evalEntry m start v g).1.prune = true → enteredDir v = true :=
+  evalEntry_prune_entered m start v g
+
+/-- … so that on every visit of a well-formed world the request concerns a directory whose listing
+    the walk pushed — the hypothesis `PruneOk` of `C03_order_pre`, visit by visit. -/
+theorem C03_prune_only_pushed (c : RefCfg) (m : M Prim) (start : Bytes) (v : Visit Attr) (g : GS)
+    (hv : VisitTyped c v) (h : (evalEntry m start v g).1.prune = true) :
+    match v.ent.node with
+    | .dir _ l _ _ _ => (!l || c.follows v.ent.depth) = true
+    | .leaf _ _ _ => False :=
+  prune_only_pushed c m start v g hv h
+
+/-- Non-vacuity, on a whole run: `find r -xdev ( -name m -prune ) -o -print` where `r/m` is a mount
+    point (device 2, the rest on device 1) with an entry `s` inside: `r/m` is pruned (not printed),
+    its entry is not visited, and its sibling `r/z` is still visited. -/
+example :
+    let f : Attr := { lty := 'f', sty := 'f', l := { dev := 1 }, s := { dev := 1 } }
+    let d (dev : Nat) : Attr := { lty := 'd', sty := 'd', l := { dev := dev }, s := { dev := dev } }
+    let t : Node Attr := .dir [] false true (d 1)
+      [.leaf [97] .plain f, .dir [109] false true (d 2) [.leaf [115] .plain f], .leaf [122] .plain f]
+    (run .never [([114], some t)]
+      [.xdev, .tok .lp, .tok (.prim (.name [109])), .tok (.prim .prune), .tok .rp, .tok .or_, .tok (.prim (.pathOut [] [10]))]).map
+        (·.gs.out) = some [114, 10, 114, 47, 97, 10, 114, 47, 122, 10] := by decide +kernel
+
+end FuModel.Find.Run
